@@ -126,8 +126,16 @@ fn fmt_f32(v: f32, lex: &mut Lex) -> String {
 fn num_f(name: &str, v: F64, lex: &mut Lex) -> XN {
     XN::Num { name: name.into(), ty: "Float", attrs: vec![], text: fmt_f64(v.0, lex), zero: v.0 == 0.0 && v.0.is_sign_positive() }
 }
-fn num_i(name: &str, v: i64) -> XN {
-    XN::Num { name: name.into(), ty: "Integer", attrs: vec![], text: v.to_string(), zero: v == 0 }
+fn num_i(name: &str, v: i64, lex: &mut Lex) -> XN {
+    // lexical forms of an XML Schema integer: optional sign, leading zeros
+    let text = match if lex.flag(5) { 1 + lex.pick(3) } else { 0 } {
+        1 if v >= 0 => format!("+{v}"),
+        2 if v >= 0 => format!("0{v}"),
+        2 => format!("-0{}", v.unsigned_abs()),
+        3 if v >= 0 => format!("+00{v}"),
+        _ => v.to_string(),
+    };
+    XN::Num { name: name.into(), ty: "Integer", attrs: vec![], text, zero: v == 0 }
 }
 fn st(name: &str, v: &str) -> XN {
     XN::Str { name: name.into(), text: v.to_string() }
@@ -140,7 +148,7 @@ fn dt(name: &str, d: &DT, lex: &mut Lex) -> XN {
     if !d.atomic && lex.flag(3) {
         return node(name, "Structure", vec![num_f("dateTimeValue", d.gps, lex)], true);
     }
-    node(name, "Structure", vec![num_f("dateTimeValue", d.gps, lex), num_i("isAtomicClockReferenced", d.atomic as i64)], true)
+    node(name, "Structure", vec![num_f("dateTimeValue", d.gps, lex), num_i("isAtomicClockReferenced", d.atomic as i64, lex)], true)
 }
 fn pose(name: &str, p: &Pose, lex: &mut Lex) -> XN {
     let rot = node("rotation", "Structure", vec![num_f("w", p.rot[0], lex), num_f("x", p.rot[1], lex), num_f("y", p.rot[2], lex), num_f("z", p.rot[3], lex)], true);
@@ -158,6 +166,17 @@ fn limit(name: &str, v: &LimitVal, lex: &mut Lex, limited: Option<&RType>) -> XN
                 attrs.push(("offset".to_string(), fmt_f64(offset.0, lex)));
             }
             XN::Num { name: name.into(), ty: "ScaledInteger", attrs, text: i.to_string(), zero: *i == 0 }
+        }
+        LimitVal::SX { raw, scale, offset } => {
+            let mut attrs = vec![];
+            // scale 1 and offset 0 are the defaults of the element
+            if scale.0 != 1.0 || lex.flag(2) {
+                attrs.push(("scale".to_string(), fmt_f64(scale.0, lex)));
+            }
+            if offset.0.to_bits() != 0 || lex.flag(2) {
+                attrs.push(("offset".to_string(), fmt_f64(offset.0, lex)));
+            }
+            XN::Num { name: name.into(), ty: "ScaledInteger", attrs, text: raw.to_string(), zero: *raw == 0 }
         }
         LimitVal::S(f) => XN::Num {
             name: name.into(),
@@ -261,8 +280,8 @@ fn rep_node(r: &Rep, data_off: u64, mask_off: u64, lex: &mut Lex) -> XN {
     if let Some(m) = &r.mask {
         kids.push(blob_leaf("imageMask", mask_off, m.len() as u64));
     }
-    kids.push(num_i("imageWidth", r.width));
-    kids.push(num_i("imageHeight", r.height));
+    kids.push(num_i("imageWidth", r.width, lex));
+    kids.push(num_i("imageHeight", r.height, lex));
     for (n, v) in r.kind.float_props().iter().zip(r.props.iter()) {
         kids.push(num_f(n, *v, lex));
     }
@@ -291,8 +310,8 @@ fn build_tree(s: &Scene, off: &Offsets, lex: &mut Lex) -> XN {
     let mut kids = vec![
         st("formatName", "ASTM E57 3D Imaging Data File"),
         st("guid", &s.guid),
-        num_i("versionMajor", 1),
-        num_i("versionMinor", 0),
+        num_i("versionMajor", 1, lex),
+        num_i("versionMinor", 0, lex),
     ];
     if let Some(v) = &s.library_version {
         kids.push(st("e57LibraryVersion", v));
@@ -364,7 +383,7 @@ fn build_tree(s: &Scene, off: &Offsets, lex: &mut Lex) -> XN {
             let mut kk = vec![];
             for (n, v) in names.iter().zip(b.iter()) {
                 if let Some(v) = v {
-                    kk.push(num_i(n, *v));
+                    kk.push(num_i(n, *v, lex));
                 }
             }
             k.push(node("indexBounds", "Structure", kk, true));
